@@ -91,7 +91,7 @@ def build(setup):
             if st['readable']:
                 b.write(rel, '\n'.join(lines) + '\n')
             else:
-                b.write(rel, b'Date,Description,Amount\n01/01/2025,CAF\xe9 \xff\xfe,1.00\n', binary=True)
+                os.makedirs(os.path.join(b.root, rel))          # unreadable: a directory where the statement file should be (open() fails)
         src = {'name': name, 'file': rel, 'format': '{date:%%m/%%d/%%Y}, {description}, {%samount}' % ('-' if st['negate'] else '')}
         if st['delimiter']:
             src['delimiter'] = st['delimiter']
